@@ -2438,6 +2438,14 @@ func (s *scanner) processScannedFiles(entryPointMeta []graph.EntryPoint) []scann
 			continue
 		}
 
+		// Skip the JavaScript stubs that this loop generates for CSS files that are
+		// imported from JavaScript. They can end up at an index that this loop has
+		// yet to reach if the stub's source index was allocated by a previous
+		// incremental build.
+		if repr, ok := result.file.inputFile.Repr.(*graph.JSRepr); ok && repr.CSSSourceIndex.IsValid() {
+			continue
+		}
+
 		sb := strings.Builder{}
 		isFirstImport := true
 
